@@ -45,6 +45,16 @@ def run(ctx):
                     ctx.instance("C21.2", "%s: raw i64 %s at line %d" % (i, rv[1], st[3]))
                     ctx.oblige(False, "C21.2", "%s:raw-i64-%s@%s" % (i, rv[1], b.local_name(st[1][0]) or "tmp"),
                                "raw i64 arithmetic in an aggregate fold (panics in debug, wraps in release)", "%s:%d" % (b.file, st[3]))
+    for i, b in sorted(F.bodies.items()):
+        if not i.startswith(PREFIX) or "::tests::" in i:
+            continue
+        for c in b.calls():
+            short = c.name.split("::")[-1]
+            if short.startswith(("wrapping_", "overflowing_", "unchecked_")) and "num::<impl i64>" in c.name:
+                ctx.instance("C21.2", "%s: %s on i64" % (i, short))
+                ctx.oblige(False, "C21.2", "%s:%s#%d" % (b.root or i, short, c.ordinal),
+                           "the aggregate fold accumulates in i64 with `%s`: the wrapped partial sum is kept and the result can be a wrapped "
+                           "integer (the repository's rule is checked_* or widening to i128 with a final range test)" % short, c.loc())
     # checked conversions (`i64::try_from(acc)`) discharge the obligation by construction
     n_checked = 0
     for i, b in sorted(F.bodies.items()):
